@@ -1,4 +1,9 @@
 #!/bin/bash
-# tools/benign_matrix.sh [tier] - every property-preserving change under /verif/benign must leave every check at exit 0
+# tools/benign_matrix.sh [tier] [k n] - every property-preserving change under /verif/benign must leave every check at exit 0
+# (BENIGN_PROPS restricts the checks; "k n" runs the k-th of n interleaved shares, for parallel streams)
 cd "$(dirname "$0")/.."
-for d in benign/[A-Z]*/; do tools/benign_eval.sh $d/patch.diff "${1:-quick}" 2>&1 | grep "ALARM\|BENIGN"; done
+k="${2:-0}"; n="${3:-1}"; i=0
+for d in benign/[A-Z]*/; do
+  if [ $((i % n)) -eq "$k" ]; then tools/benign_eval.sh $d/patch.diff "${1:-quick}" 2>&1 | grep "ALARM\|BENIGN"; fi
+  i=$((i+1))
+done
